@@ -736,6 +736,69 @@ func runC03(c *core.Ctx) core.Meta {
 		}
 	}
 
+	// ---------------- R03.9 LDS instructions address LDS at ADDR plus their offset field ----------------
+	st9 := c.Rule("R03.9", "every access of an LDS instruction handler (tied to its name through decode table -> dispatch switch -> callee) addresses the LDS at the ADDR operand plus the instruction's offset field: the 16-bit OFFSET for single-address instructions, OFFSET0 / OFFSET1 times the element size for the read2 / write2 forms", 10)
+	dsName := regexp.MustCompile(`^ds_(read|write)(2(st64)?)?_b(8|16|32|64|96|128)$`)
+	seen9 := map[string]bool{}
+	for _, h := range handlers {
+		var m []string
+		for _, n := range h.insts {
+			if mm := dsName.FindStringSubmatch(n); mm != nil {
+				m = mm
+			}
+		}
+		if m == nil || seen9[h.alu.pkg+"."+h.name] {
+			continue
+		}
+		seen9[h.alu.pkg+"."+h.name] = true
+		fn := c.SSAFunc(h.alu.pkg, h.alu.typ+"."+h.name)
+		if fn == nil {
+			continue
+		}
+		scale := int64(1)
+		if m[2] != "" {
+			fmt.Sscan(m[4], &scale)
+			scale /= 8
+			if m[3] != "" {
+				scale *= 64
+			}
+		}
+		for _, b := range fn.Blocks {
+			for _, in := range b.Instrs {
+				sl, ok := in.(*ssa.Slice)
+				if !ok || sl.Low == nil {
+					continue
+				}
+				call, ok := sl.X.(*ssa.Call)
+				if !ok || core.CalleeFunc(call) == nil || core.CalleeFunc(call).Name() != "LDS" {
+					continue
+				}
+				st9.Instances++
+				c.MarkAnalysed(fn)
+				pv := prov.Of(sl.Low)
+				hasAddr := strings.Contains(pv, ".Addr")
+				var okOff bool
+				if scale == 1 {
+					okOff = regexp.MustCompile(`\.Offset0\)?$|\.Offset0\)*\+`).MatchString(pv) || strings.Contains(pv, ".Offset0")
+					if regexp.MustCompile(`\.Offset[01]\*`).MatchString(pv) {
+						okOff = false
+					}
+				} else {
+					okOff = regexp.MustCompile(fmt.Sprintf(`\.Offset[01]\*%d\)`, scale)).MatchString(pv)
+				}
+				st9.Ob(hasAddr && okOff)
+				st9.Sample("%s.%s (%s): LDS[%s]", h.alu.typ, h.name, m[0], short(pv))
+				if !(hasAddr && okOff) {
+					want := "ADDR + OFFSET"
+					if scale != 1 {
+						want = fmt.Sprintf("ADDR + OFFSET0/1 * %d", scale)
+					}
+					c.ReportAt("R03.9", fn, in.Pos(), "lds-address:"+m[0], fmt.Sprintf("%s accesses the LDS at %s; %s addresses %s: with a non-zero offset field the wrong LDS location is read or written", h.name, short(pv), m[0], want))
+				}
+			}
+		}
+	}
+
 	// ---------------- R03.2 shift-amount masking ----------------
 	st2 := c.Rule("R03.2", "in handlers of shift instructions (tied to their names through decode table -> dispatch switch -> callee) every data-dependent shift amount is confined to [0, W-1] (W from the instruction name) by a mask or modulus before it reaches the Go shift, because Go saturates where the ISA uses the low 4/5/6 bits", 15)
 	seenH := map[string]bool{}
